@@ -160,6 +160,7 @@ class Interp:
         self.assume = {}  # tag -> bool for conditions the context fixes
         self.strict_shapes = True
         self._last_comp_iter = None
+        self.narrowings = []  # (site, what, TObj): float64 values squeezed into float32
         self.sticky = False  # one outcome per branch site per path (coarser partition, fewer paths)
         self.sticky_memo = {}
         self.term_memo = {}
@@ -488,7 +489,7 @@ class Interp:
         if isinstance(cur, VTens):
             new = self.ops.binop(self, type(st.op).__name__, cur, rhs, st)
             nt = new.term if isinstance(new, VTens) else None
-            self.write(cur, nt, st, "augassign %s" % type(st.op).__name__, newshape=None)
+            self.write(cur, nt, st, "augassign %s" % type(st.op).__name__, newshape=None, src=rhs if isinstance(rhs, VTens) else None)
             return
         if isinstance(cur, VList) and isinstance(st.op, ast.Add):
             self.container_mutation(cur, st, "list +=")
@@ -1531,6 +1532,18 @@ class Interp:
         raise Unsupported("attribute store on %r" % (base,), node, self.site(node))
 
     # ------------------------------------------------------------------ writes
+    def note_width_flow(self, dst, src, term, node, detail):
+        """A float64 value stored into a float32 tensor is rounded; a float64 tensor filled from a float32 intermediate holds
+        rounded values (unless they are constants float32 holds exactly)."""
+        dw = dst.obj.float_width()
+        sw = src.obj.float_width() if isinstance(src, VTens) else None
+        if sw is None and dw == 32 and (not isinstance(src, VTens) or src.obj.valkind not in ("bool", "index", "perm", "str")):
+            sw = 64  # a width that was not tracked: the library's data and parameters are float64 (stated assumption)
+        if dw == 32 and sw == 64:
+            self.narrowings.append((self.site(node), "float64 values are written into a float32 tensor (%s)" % detail, src.obj))
+        elif dw == 64 and sw == 32 and term is not None and hasattr(term, "is_const") and not term.is_const() and src.obj.origin == "fresh":
+            self.narrowings.append((self.site(node), "a float64 tensor is filled from a float32 intermediate (%s)" % detail, src.obj))
+
     def rebind_storage(self, tv, newterm, node, detail, shape=None, alias=None):
         """`tv.data = <tensor>`: the python object keeps its identity, flags, .grad and version counter but from now on
         uses other storage.  Views created before keep the previous storage (they go stale)."""
@@ -1549,9 +1562,11 @@ class Interp:
         tv.obj = new
         self.effect("write", new, node, detail)
 
-    def write(self, tv, newterm, node, detail, meta=False, newshape=None):
-        """In-place write of `newterm` through the view `tv`."""
+    def write(self, tv, newterm, node, detail, meta=False, newshape=None, src=None):
+        """In-place write of `newterm` through the view `tv`.  `src`: the value written, when it is a tensor (float-width facet)."""
         obj = tv.obj
+        if src is not None and not meta:
+            self.note_width_flow(tv, src, newterm, node, detail)
         self.effect("meta" if meta else "write", obj, node, detail)
         if detail != "set .data":
             obj.version += 1
@@ -1595,7 +1610,7 @@ class Interp:
             else:
                 nt = num_term(v)
             if isinstance(view, VTens) and view.obj is base.obj:
-                self.write(view, nt, node, "subscript store")
+                self.write(view, nt, node, "subscript store", src=v if isinstance(v, VTens) else None)
             else:
                 # advanced-index store: functional update of base
                 self.effect("write", base.obj, node, "advanced subscript store")
